@@ -219,7 +219,8 @@ func (p *Preemptor) checkPreemptionQueueGuarantees() bool {
 		return false
 	}
 	oldRemaining := currentQueue.GetRemainingGuaranteedResource()
-	if oldRemaining != nil && oldRemaining.FitInActual(p.ask.GetAllocatedResource()) {
+	// the ask must need at least one of the guaranteed resource types, see isAskQueueUnderGuaranteed
+	if oldRemaining != nil && oldRemaining.MatchAny(p.ask.GetAllocatedResource()) && oldRemaining.FitInActual(p.ask.GetAllocatedResource()) {
 		return true
 	}
 	currentQueue.AddAllocation(p.ask.GetAllocatedResource())
@@ -937,16 +938,20 @@ func batchPreemptionChecks(checks []*si.PreemptionPredicatesArgs, batchSize int)
 // isAskQueueUnderGuaranteed Is Ask Queue (not in general sense) under guaranteed purely based on the ask's resource requirement?
 // Traverse each ask's res type, confirm its existence in ask queue and check whether it has -ve or not.
 // -ve value means over guaranteed, return false to confirm the same
+// An ask that needs none of the guaranteed resource types cannot be under guaranteed either: there is nothing the
+// queue is entitled to that preemption could give it, return false.
 // For all other cases (even if non-matching res type has -ve value), return true
 func isAskQueueUnderGuaranteed(askResource *resources.Resource, askQueue *resources.Resource) bool {
+	matched := false
 	for resType := range askResource.Resources {
 		if val, ok := askQueue.Resources[resType]; ok {
 			if val < 0 {
 				return false
 			}
+			matched = true
 		}
 	}
-	return true
+	return matched
 }
 
 // isVictimQueueOverGuaranteed Is Victim Queue (not in general sense) over guaranteed purely based on the ask's resource requirement?
